@@ -11,6 +11,22 @@ Pairs(inp) == [i \in 1..Len(inp) |-> <<inp[i].b, inp[i].n>>]
 \* label: some complete length token claims 2^32-1 or 2^32 bytes (the executor's allocation guard)
 Claim == IF \E i \in 1..Len(toks) : toks[i].k = "len" /\ toks[i].cut = 0 /\ toks[i].c \in {"cffffffff", "c2p32"}
            THEN 1 ELSE 0
+Line(inp) == ToJson([inp |-> Pairs(inp), claim |-> Claim, toks |-> toks])
+
+(* Where the recogniser rejects for a reason other than missing bytes, the  *)
+(* input is ALSO emitted with a benign completion - what a decoder lacking  *)
+(* that check would need in order to accept: after a rejected type token a  *)
+(* zero length (or the 1 resp. 2 value bytes a known record wants), after a *)
+(* rejected length token the claimed value.  The model's verdict on these   *)
+(* inputs is computed by the trace spec like for any other input.           *)
+Completions ==
+  IF m.st # "rej" \/ m.err = "eof" THEN {}
+  ELSE IF m.at = "type"
+    THEN {Runs(<<0>>), Runs(<<1, Filler>>), Runs(<<2, Filler, Filler>>)}
+  ELSE LET v == Class[toks[Len(toks)].c] IN
+       IF Small(v) /\ v # <<>> THEN {<<[b |-> Filler, n |-> NatOfNum(v)]>>} ELSE {}
+
 Dump == Terminal(m) =>
-          CSVWrite("%1$s", <<ToJson([inp |-> Pairs(fed), claim |-> Claim, toks |-> toks])>>, "tok.ndjson")
+          /\ CSVWrite("%1$s", <<Line(fed)>>, "tok.ndjson")
+          /\ \A c \in Completions : CSVWrite("%1$s", <<Line(fed \o c)>>, "tok.ndjson")
 =============================================================================
